@@ -129,7 +129,7 @@ func init() {
 						id := []int{0x0801, 0x0200, 0x0704}[rr.Intn(3)]
 						order := rr.Perm(total - 1)
 						send := func(no int) {
-							body := randBytes(rr, 12+rr.Intn(30))
+							body := randBytes(rr, 20+rr.Intn(30)) // two parts always hold the 36-byte fixed part of 0x0801
 							t.send(buildFrame(hdrSpec{id: id, serial: t.nextSerial(), ver: t.ver, verbyte: 1, frag: 1, total: total, no: no, phone: t.phone, body: body}))
 						}
 						send(1)
